@@ -212,8 +212,8 @@ class Sim:
         parameters, to give its *peer* a small limit."""
         ms = self.cfg.get("max_streams")
         if ms:
-            conn._local_max_streams_bidi.value = ms
-            conn._local_max_streams_uni.value = ms
+            conn._local_max_streams_bidi.value = conn._local_max_streams_bidi.sent = ms
+            conn._local_max_streams_uni.value = conn._local_max_streams_uni.sent = ms
 
     # ---------------------------------------------------------------- logging
     def ev(self, kind, **kw):
